@@ -15,7 +15,15 @@ from ..flow import ASSIGN_OPS
 def _member_reads(f, root, local_defs, seen_locals):
     """members of *this read by expression root (through locals defined in f)."""
     out = set()
+    # the value of a chained assignment `a = b = e` is e: the assigned-to lvalues are not read
+    skip = set()
     for j in f.walk(root):
+        n = f.nodes[j]
+        if n['k'] == 'BinaryOperator' and n.get('op') == '=':
+            skip.update(f.walk(n['ch'][0]))
+    for j in f.walk(root):
+        if j in skip:
+            continue
         n = f.nodes[j]
         if n['k'] == 'MemberExpr' and n.get('mk') == 'field' and n.get('thisbase'):
             out.add(n['m'])
